@@ -32,6 +32,13 @@ def jsonish(x):
     return x
 
 
+class StrictErr(Exception):
+    """An application exception class registered for an error URI; its constructor takes exactly one argument."""
+
+    def __init__(self, only):
+        Exception.__init__(self, only)
+
+
 class Req:
     pass
 
@@ -88,6 +95,11 @@ class World(SessionWorld):
             self.run.probe("id-near-wrap")
         self.ops_left = 3 + ch.choose(12, "nops")
         self.tok = 0
+        # the application maps an error URI to an exception class of its own; whether a given ERROR fits its constructor
+        # is not in the application's hands - the request completes with the error either way
+        self.cfg["defines"] = ch.flag("session-defines-an-exception-class", 0.35)
+        if self.cfg["defines"]:
+            self.session.define(StrictErr, "com.example.error.strict")
 
     sync_reply_for = None
     pending_alloc = None
@@ -522,7 +534,9 @@ class World(SessionWorld):
         r.answered = True
         if how == "error":
             uri = "wamp.error.canceled" if r.cancelled else ch.pick(("com.example.error.%s" % r.token, "wamp.error.no_such_procedure",
-                                                                    "wamp.error.not_authorized"), "erruri")
+                                                                    "wamp.error.not_authorized", "com.example.error.strict"), "erruri")
+            if uri == "com.example.error.strict" and self.cfg.get("defines"):
+                self.run.probe("error-for-a-defined-class:%s" % ("fits" if (len(args) == 1 and not kwargs) else "constructor-refuses"))
             rt = {"call": 48, "publish": 16, "subscribe": 32, "unsubscribe": 34, "register": 64, "unregister": 66}[r.kind]
             msg = M.Error(rt, r.id, uri, args=list(args) or None, kwargs=dict(kwargs) or None)
             r.expect = ("err", uri, tuple(jsonish(list(args))), jsonish(kwargs))
@@ -696,6 +710,10 @@ class World(SessionWorld):
             if st[0] != "err":
                 return False
             x = st[1]
+            if isinstance(x, StrictErr):
+                # the registered class, built from the carried arguments
+                return e[1] == "com.example.error.strict" and self.cfg.get("defines") and len(e[2]) == 1 and not e[3] \
+                    and jsonish(list(x.args)) == list(e[2])
             return isinstance(x, ApplicationError) and x.error == e[1] and tuple(jsonish(list(x.args))) == e[2] and jsonish(x.kwargs) == e[3]
         if st[0] != "ok":
             return False
